@@ -256,11 +256,26 @@ func (g *Gen) script() string {
 	b.WriteString(prelude)
 	// struct datatypes and tags first, then spec text, then the rest
 	spec := g.specs.text
+	body := g.body.String()
+	for _, o := range g.specs.opt {
+		used := false
+		for _, sym := range o.syms {
+			if strings.Contains(body, "("+sym+" ") {
+				used = true
+			}
+		}
+		if used {
+			spec += o.text
+			if strings.Contains(o.text, "utf8_width") {
+				g.d.add("fn:utf8", "(declare-fun utf8_rune (String Int) Int)\n(declare-fun utf8_width (String Int) Int)")
+			}
+		}
+	}
 	// make sure symbols referenced by the spec text are declared
 	g.demandSpecSymbols(spec)
 	b.WriteString(g.d.emit())
 	b.WriteString(spec)
-	b.WriteString(g.body.String())
+	b.WriteString(body)
 	return b.String()
 }
 
